@@ -24,8 +24,8 @@ PART = {
                  "hypotheses: those of C06_reference_selfconsistent (layoutAdm, footer value well-formed, sizes below 2^31) plus "
                  "Impl.Reader.Claim.fileClaimed - carquet's own limits: unknown fields nest at most 31 (footer) .. 27 (statistics, "
                  "dictionary page header) deep (THRIFT_MAX_NESTING 32), at most 10000 schema elements / columns, 100000 row groups, "
-                 "100 encodings and path elements per chunk, no BOOLEAN dictionary, levels below 2^15, NO EMPTY DATA PAGE (finding "
-                 "F63, open), and for the fread path: every page header at most 2^24 bytes (CARQUET_PAGE_HEADER_WINDOW_MAX); that "
+                 "100 encodings and path elements per chunk, no BOOLEAN dictionary, levels below 2^15 (data pages WITHOUT values are "
+                 "inside the claim since repair F63, see part f63), and for the fread path: every page header at most 2^24 bytes (CARQUET_PAGE_HEADER_WINDOW_MAX); that "
                  "the growing window never accepts a header cut short is proved (parsePageHeaderC_mono, after fix F62)",
                  "GZIP / ZSTD page bodies: zlib / libzstd inflate the stored-block members / raw-RLE-block frames of the file "
                  "(LibsDecode; library contract, trusted base); every other class holds for ANY library behaviour"],
@@ -54,14 +54,13 @@ PART = {
          "(C06_unsupported_rejected, C06_v2_page_rejected): DATA_PAGE_V2 -> NOT_IMPLEMENTED from load_next_page; a value "
          "encoding outside {0, 2, 8}, a codec tag outside {0, 1, 2, 5, 6, 7}, a dictionary page of a BOOLEAN column -> "
          "load_next_page / load_dictionary_page returns an error whatever else the page holds, the page iteration ends in "
-         "`none` there, nothing of the offending page is delivered (BIT_PACKED levels are not decided by a header field: "
+         "`none` there, nothing of the offending page is delivered - or (encoding and codec clause, since repair F63) the page "
+         "announces no values and is stepped over undecoded (BIT_PACKED levels are not decided by a header field: "
          "observed only). DEFECT FOUND AND REPAIRED: F62 - thrift_skip ignored a BYTE / DOUBLE / UUID value that the buffer "
          "ends inside; a page header longer than the 256-byte fread window whose cut falls inside an unknown DOUBLE 0.0 was "
          "accepted truncated and the page decoded 8 bytes early: wrong values, status OK, fread mode only (witness "
-         "corpus/C06/fixed-F62.ops, fix fixes/F62-..., C06_regression_F62). FINDING, OPEN: F63 - a data page with num_values = 0 "
-         "before the end of a chunk makes carquet_column_read_batch return 0 / a short count with values outstanding (and a "
-         "leading empty page fails in fread mode, memset(NULL) under UBSan); excluded by the hypothesis pagesNonEmpty, witness "
-         "in notes/. Kernel-checked non-vacuity on the nested two-row-group instance with four codecs, dictionaries, "
+         "corpus/C06/fixed-F62.ops, fix fixes/F62-..., C06_regression_F62). SECOND DEFECT FOUND (F63, empty data pages): repaired and lifted from the "
+         "hypotheses by part f63. Kernel-checked non-vacuity on the nested two-row-group instance with four codecs, dictionaries, "
          "statistics and unknown fields at all places (fread, mmap, buffer), and one instance per class.",
     level_note="Lean kernel: whole-file theorem reader(reference writer(table, layout)) = table over the exact reader model; "
                "refread ties the model's readAll and the theorem's rendering to the real reader on every generated file",
